@@ -301,6 +301,26 @@ def fam_md(rnd, tier):
                     sc.append(act("ret", code=fail, msg=["plain"] if fail else []))
                     c["script"] = sc
                     out.append(c)
+    # every protocol-reserved response key, set by the handler as a header and as a trailer, on every protocol, with and
+    # without a failing status: the client must never see the handler's value under that key
+    reserved = ["grpc-status", "grpc-message", "grpc-status-details-bin", "grpc-encoding", "grpc-message-type",
+                "grpc-timeout", "content-type", "te", "trailer", "user-agent"]
+    for proto in ["http", "grpc", "grpcweb", "grpcwebtext"]:
+        for key in reserved:
+            for where in ("hdr", "trl", "both"):
+                for shape, fail in [("unary", 0), ("sstream", 0), ("unary", 9), ("sstream", 9)]:
+                    c = base(proto, shape, codec=rnd.choice(["proto", "json"]), tag="md")
+                    val = "666f72676564" if key.endswith("-bin") else "forged"      # hex of "forged" for -bin keys
+                    sc = []
+                    if where in ("hdr", "both"):
+                        sc.append(act("sethdr", md={key: [val], "x-h": ["1"]}))
+                    if shape == "sstream":
+                        sc.append(act("send", size=1))
+                    if where in ("trl", "both"):
+                        sc.append(act("settrl", md={key: [val], "x-t": ["2"]}))
+                    sc.append(act("ret", code=fail, msg=["plain"] if fail else [], det=1 if fail else 0))
+                    c["script"] = sc
+                    out.append(c)
     rnd.shuffle(out)
     return out
 
